@@ -654,8 +654,18 @@ struct C03 : World, TtxWorldBase {
     p.knobs["frame_max"] = 1 + (int64_t)r.below(8);
     bool enumerate = r.chance(1, tier == "thorough" ? 40 : 150);
     p.knobs["enumerate"] = enumerate;
+    // transmission cycles: every magazine sends its carousel 1-3 times, so that the decoder receives pages it has
+    // already cached - mostly without erase flag (the page is continued from the cached copy), with new or with
+    // unchanged content - and a fault can hit the retransmission ("keeps its earlier content", "never replaces a
+    // previously received good row", "abandons the pages in progress" all speak about such histories)
+    int cycles = enumerate ? 1 + (int)r.below(2) : r.chance(1, 3) ? 1 : r.chance(3, 4) ? 2 : 3;
+    p.knobs["cycles"] = cycles;
+    p.knobs["one_network"] = 1; p.knobs["net_seed"] = (int64_t)(r.next() >> 1);
     int nmag = 1 + (int)r.below(enumerate ? 2 : 4);
-    int total = enumerate ? 3 + (int)r.below(3) : 4 + (int)r.below(12);
+    int total = enumerate ? (cycles == 1 ? 3 + (int)r.below(3) : 2 + (int)r.below(2)) : cycles == 1 ? 4 + (int)r.below(12) : cycles == 2 ? 3 + (int)r.below(7) : 2 + (int)r.below(5);
+    // subpage runs: an op may continue with the next subpage of the page of the op before it (same magazine), i.e. two
+    // headers with the same page number follow each other directly in their magazine.  Swarm: never / sometimes / often
+    int run_pct = r.chance(2, 5) ? 0 : r.chance(1, 2) ? 25 : 60;
     int car[8][3];
     for (int m = 0; m < 8; m++) for (int k = 0; k < 3; k++) car[m][k] = (int)r.below(99);
     for (int i = 0; i < total; i++) {
@@ -664,28 +674,58 @@ struct C03 : World, TtxWorldBase {
       // flags: bit0 X/27/0, bit1 lc, bit2 row 24, bit3 random order, bit4 X/26 enhancement, bit5 X/28/0, bit6 followed by an 8/30 packet
       // bit7 X/26 with the full mix of column triplet modes (character replacing and not) addressing transmitted rows
       int flags = (int)r.below(256);
+      if ((flags & 1) && r.chance(1, 2)) flags |= 6;   // half of the pages with X/27/0 are complete FLOF pages: link control "row 24 displayed" and a row 24
       // a[8]: 0 = subcodes as in C02 (0000 or 01-79); else page numbers ending in 3, 7, 9 are clock pages with the
       // four digit subcode hh:mm (S3/S4 non-zero), hours 01-22
       int64_t clock = r.chance(1, 4) ? 0 : 1 + (int64_t)r.below(22 * 60);
-      o.a = {pg, 1 + (int64_t)r.below(3), (int64_t)r.below(8), r.chance(1, 3) ? 1 : 0, (int64_t)r.below(1u << 30), flags, (int64_t)r.below(6), enumerate ? 1 + (int64_t)r.below(5) : (int64_t)r.below(24), clock};
+      int64_t sub = 1 + (int64_t)r.below(3);
+      // a[3]: erase flag C4, bit c = in cycle c (retransmissions mostly come without)
+      int64_t erase = (r.chance(1, 3) ? 1 : 0) | (r.chance(1, 4) ? 2 : 0) | (r.chance(1, 4) ? 4 : 0);
+      // a[9]: bit0 the page may directly follow another subpage of the same page number (subpages 01-79 back to back),
+      //       bit1 the retransmissions in later cycles repeat the content of the first cycle unchanged
+      int64_t more = (r.chance(1, 4) ? 1 : 0) | (r.chance(1, 4) ? 2 : 0);
+      if (i > 0 && (int)r.below(100) < run_pct) {
+        Op& prev = p.ops.back();
+        prev.a[0] &= ~(int64_t)1;   // page numbers with an even last digit have subpages 01-79
+        o.task = prev.task; pg = (int)prev.a[0]; sub = prev.a[1] % 3 + 1; more |= 1;
+      }
+      o.a = {pg, sub, (int64_t)r.below(8), erase, (int64_t)r.below(1u << 30), flags, (int64_t)r.below(6), enumerate ? 1 + (int64_t)r.below(5) : (int64_t)r.below(24), clock, more};
       p.ops.push_back(o);
     }
     if (!enumerate) {
-      int nf = 1 + (int)r.below(3);
+      // faulted decodes are cheap next to the enumerating runs: several independent faults per transmission
+      int nf = cycles == 1 ? 1 + (int)r.below(3) : 3 + (int)r.below(6);
       for (int i = 0; i < nf; i++) {
         Op f; f.task = 8; f.kind = "fault";
         // kind: 0 single bit, 1 two bits in one byte, 2 two bits in different bytes, 3 burst, 4 drop packet,
         //       5 two bits in one of the page number / subcode / control bytes of a header,
         //       6 one bit in a text row character at a position addressed by an X/26 column triplet
         //       7 two bits in the designation code of an X/26-29 packet or the link control byte of an X/27 packet
-        f.a = {(int64_t)r.below(8), (int64_t)r.below(1000), (int64_t)r.below(336), (int64_t)r.below(336), 2 + (int64_t)r.below(15)};
+        //       8 one bit in a protected byte of a packet drawn by PACKET TYPE (a[6]: header, row 1-23, row 24, X/26,
+        //         X/27, X/28, 8/30 - each type as often as any other, however few packets of it there are)
+        //       9 two bits in a page number / subcode / control byte of a header drawn by the HISTORY of its page (a[6]:
+        //         first transmission, retransmission without / with erase flag, directly behind / in front of a
+        //         header with the same page number)
+        // a[5] bit0: the fault hits a packet of a later cycle (a retransmission) if there is one
+        // a[7] bit0: kinds 0-4 draw their packet by packet type as well (a[6]) instead of uniformly over the transmission
+        f.a = {(int64_t)r.below(10), (int64_t)r.below(1000), (int64_t)r.below(336), (int64_t)r.below(336), 2 + (int64_t)r.below(15), (int64_t)r.below(2), (int64_t)r.below(35), (int64_t)r.below(2)};
         p.ops.push_back(f);
       }
     }
     return p;
   }
 
-  struct Rec { ttx::Packet pk; int mag; int page_seq; bool page_has_x26; int pgno; };
+  // sub, erase, cycle: subcode and erase flag of the transmission the packet belongs to, carousel cycle it was sent in
+  struct Rec { ttx::Packet pk; int mag; int page_seq; bool page_has_x26; int pgno; int sub = 0; bool erase = false; int cycle = 0; };
+  // A second VBI_EVENT_NETWORK within one decode of this run (the first one identifies the network, nothing is dropped
+  // then): the decoder took an 8/30 packet for ANOTHER network and has dropped its cache - a channel switch, outside
+  // the statement.  The two clauses which reason about what the cache holds from earlier transmissions are not applied
+  // to such a run.  (Cannot happen with knob one_network; practically never without.)
+  int network_events = 0, net_in_decode = 0;
+  void on_network() override { if (++net_in_decode >= 2) network_events++; }
+  // one transmission of a page = header + the packets up to the next header (page_seq is the index into txs)
+  struct Tx { int hdr = -1, pgno = 0, sub = 0, mag = 0, cycle = 0; bool erase = false; int term_hdr = -1; int term_pgno = -1; int prev_pgno = -1; std::map<int, int> rows; };
+  std::vector<Tx> txs;
   std::set<int> transmitted;  // pgno<<16|subno, the full subpage number S1..S4 as transmitted
   // per page number: positions (row*40+column) of Level 1 characters which X/26 enhancement data of any transmission
   // of that page overrides ("positions overridden by X/26 enhancement data excepted")
@@ -693,6 +733,7 @@ struct C03 : World, TtxWorldBase {
   // (packet index, byte index) of text row characters addressed by an X/26 column triplet of whatever mode, same transmission
   std::vector<std::pair<int, int>> x26_addressed;
   static int pkey(int pgno, int subno) { return (pgno << 16) | (subno & 0xFFFF); }
+  static int pgno_of(int mag, int page) { return mag * 256 + page; }
 
   // Follows the active position through the triplets of one X/26 packet as EN 300 706 12.3 describes it: row address
   // triplets (address 40-63) of mode 0x04 (set active position) and 0x01 (full row colour) select the row (address 40 =
@@ -724,6 +765,7 @@ struct C03 : World, TtxWorldBase {
   // ---- phase 1: record the transmission
   void record(const Plan& plan, RunCtx& c, std::vector<Rec>& out) {
     bool serial = plan.knob("serial") & 1;
+    int cycles = (int)(llabs(plan.knob("cycles", 1)) % 4); if (cycles < 1) cycles = 1;   // absent (older replay files): one cycle
     Sched sched(c, (uint64_t)plan.knob("sched_seed", (int64_t)plan.seed), (Policy)(plan.knob("policy") % 3), (int)plan.knob("pparam"));
     std::vector<std::vector<const Op*>> per(8);
     for (auto& op : plan.ops) if (op.kind == "page") per[(size_t)(((op.task % 8) + 8) % 8)].push_back(&op);
@@ -733,32 +775,48 @@ struct C03 : World, TtxWorldBase {
     for (int m = 0; m < 8; m++) {
       if (per[(size_t)m].empty()) continue;
       sched.spawn("mag" + std::to_string(m), [&, m] {
-        int mag = m ? m : 8; int prev_page = -1;
-        auto hdr = [&](int page, int sub, int nat, bool erase, int seq, bool x26) {
+        int mag = m ? m : 8; int prev_page = -1, prev_sub = -1;
+        // the transmission in progress in this magazine (every packet record carries its subcode, erase flag, cycle)
+        int cur_seq = -1, cur_pgno = 0, cur_sub = 0, cur_cycle = 0; bool cur_erase = false, cur_x26 = false;
+        auto add = [&](const ttx::Packet& pk) { Rec rc{pk, m, cur_seq, cur_x26, cur_pgno}; rc.sub = cur_sub; rc.erase = cur_erase; rc.cycle = cur_cycle; out.push_back(rc); };
+        auto hdr = [&](int page, int sub, int nat, bool erase, int seq, bool x26, int cycle) {
           int pgno = mag * 256 + page; uint8_t text[32]; header_text(pgno, text);
           unsigned ctrl = ttx::ctrl_national(nat) | (erase ? ttx::C4_ERASE : 0) | (serial ? ttx::C11_SERIAL : 0);
-          out.push_back({ttx::header(mag, page, sub, ctrl, text), m, seq, x26, pgno});
+          cur_seq = seq; cur_pgno = pgno; cur_sub = sub; cur_cycle = cycle; cur_erase = erase; cur_x26 = x26;
+          add(ttx::header(mag, page, sub, ctrl, text));
           transmitted.insert(pkey(pgno, sub));
         };
+        for (int cyc = 0; cyc < cycles; cyc++)
         for (const Op* op : per[(size_t)m]) {
-          int page = to_bcd((int)(llabs(op->arg(0)) % 99));
-          if (page == prev_page) page = to_bcd((int)((llabs(op->arg(0)) + 1) % 99));
-          prev_page = page;
-          int sub = to_bcd((int)(llabs(op->arg(1)) % 80));
-          if (page & 1) sub = 0; else if (sub == 0) sub = 1;
+          int more = (int)op->arg(9);
           // clock pages: subcode hh:mm in S4 S3 : S2 S1 (EN 300 706 A.1), valid BCD digits, hours 01-22 (the cache
           // files 23:01-23:59 under subpage 0, a documented oddity the statement does not cover)
-          int64_t clk = llabs(op->arg(8));
-          if (clk != 0 && ((page & 15) == 3 || (page & 15) == 7 || (page & 15) == 9)) {
-            int hh = 1 + (int)((clk - 1) % 22), mm = (int)(((clk - 1) / 22) % 60);
-            sub = (to_bcd(hh) << 8) | to_bcd(mm);
-          }
-          int pgno = mag * 256 + page;
-          int nat = (int)(llabs(op->arg(2)) % 8); bool erase = op->arg(3) & 1;
-          Rng r((uint64_t)op->arg(4), "content"); int flags = (int)op->arg(5);
+          auto sub_for = [&](int page) {
+            int sub = to_bcd((int)(llabs(op->arg(1)) % 80));
+            if (page & 1) sub = 0; else if (sub == 0) sub = 1;
+            int64_t clk = llabs(op->arg(8));
+            if (clk != 0 && ((page & 15) == 3 || (page & 15) == 7 || (page & 15) == 9)) {
+              int hh = 1 + (int)((clk - 1) % 22), mm = (int)(((clk - 1) / 22) % 60);
+              sub = (to_bcd(hh) << 8) | to_bcd(mm);
+            }
+            return sub;
+          };
+          int page = to_bcd((int)(llabs(op->arg(0)) % 99));
+          // subpages back to back: another subpage (01-79) of the page number just sent follows directly.  What becomes of
+          // the subpage in progress the statement leaves open (see C02); the differential oracle does not care, the
+          // twin is the same decoder.  Same page number and same subcode twice in a row is never sent.
+          bool back_to_back = (more & 1) && page == prev_page && sub_for(page) != prev_sub && sub_for(page) < 0x100 && prev_sub > 0 && prev_sub < 0x100;
+          if (page == prev_page && !back_to_back) page = to_bcd((int)((llabs(op->arg(0)) + 1) % 99));
+          prev_page = page;
+          int sub = sub_for(page);
+          prev_sub = sub;
+          if (back_to_back) c.count("subpages_back_to_back");
+          int nat = (int)(llabs(op->arg(2)) % 8); bool erase = (op->arg(3) >> cyc) & 1;
+          // later cycles: new content (same structure: the flags are those of the op) unless the op says "unchanged"
+          Rng r((uint64_t)op->arg(4) + ((more & 2) ? 0 : (uint64_t)cyc * 1000003u), "content"); int flags = (int)op->arg(5);
           int seq = page_seq++; bool x26 = flags & 16;
           page_begin(m);
-          hdr(page, sub, nat, erase, seq, x26);
+          hdr(page, sub, nat, erase, seq, x26, cyc);
           sched.yield();
           int nrows = (int)(llabs(op->arg(7)) % 24);
           std::vector<int> ys;
@@ -767,7 +825,7 @@ struct C03 : World, TtxWorldBase {
           if (flags & 8) for (size_t i = ys.size(); i > 1; i--) std::swap(ys[i - 1], ys[r.below(i)]);
           int style = (int)(llabs(op->arg(6)) % 6);
           std::map<int, int> row_packet;  // row -> index of its packet in this transmission
-          for (int y : ys) { uint8_t ch[40]; gen_row(r, style, ch); row_packet[y] = (int)out.size(); out.push_back({ttx::row(mag, y, ch), m, seq, x26, pgno}); sched.yield(); }
+          for (int y : ys) { uint8_t ch[40]; gen_row(r, style, ch); row_packet[y] = (int)out.size(); add(ttx::row(mag, y, ch)); sched.yield(); }
           if (x26) {
             ttx::Triplet t[13];
             bool full = flags & 128;
@@ -811,50 +869,74 @@ struct C03 : World, TtxWorldBase {
               }
             }
             t[12] = {0x3F, 0x1F, 0x7F};  // termination marker
-            x26_positions(t, &x26_override[pgno], nullptr);
+            x26_positions(t, &x26_override[pgno_of(mag, page)], nullptr);
             std::set<int> addressed; x26_positions(t, nullptr, &addressed);
             for (int pos : addressed) { auto it = row_packet.find(pos / 40); if (it != row_packet.end()) x26_addressed.push_back({it->second, 2 + pos % 40}); }
-            out.push_back({ttx::x26(mag, 0, t), m, seq, x26, pgno}); sched.yield();
+            add(ttx::x26(mag, 0, t)); sched.yield();
           }
           if (flags & 1) {
             ttx::Link L[6];
             for (int k = 0; k < 6; k++) { L[k].pgno = (1 + (int)r.below(8)) * 256 + to_bcd((int)r.below(100)); L[k].subno = r.chance(1, 2) ? 0x3F7F : to_bcd((int)r.below(80)); }
-            out.push_back({ttx::x27_0(mag, L, ((flags & 2) ? 8 : 0) | (int)r.below(8)), m, seq, x26, pgno}); sched.yield();
+            add(ttx::x27_0(mag, L, ((flags & 2) ? 8 : 0) | (int)r.below(8))); sched.yield();
           }
           if (flags & 32) {
             uint32_t tr[13];
             tr[0] = 0;  // page function LOP, coding 0
             for (int k = 1; k < 13; k++) tr[k] = (uint32_t)r.below(1u << 18);
-            out.push_back({ttx::x28(mag, 0, tr), m, seq, x26, pgno}); sched.yield();
+            add(ttx::x28(mag, 0, tr)); sched.yield();
           }
           page_end();
           if (flags & 64) {
             // 8/30 format 2: all Hamming 8/4 protected, status display with parity
+            // One network transmits: with knob one_network every 8/30 packet of the run carries the same identification
+            // (initial page, CNI, PDC fields); only the status display text varies.  Without the knob (older replay files,
+            // one cycle only) the identification is drawn per packet; two equal ones in a row, which the decoder would take
+            // for a new network (it then drops its cache: a channel switch, outside the statement), practically never occur.
             ttx::Packet p; memset(&p, 0, sizeof p); ttx::mrag(p, 8, 30);
             p.b[2] = tx::ham84(2); p.tag[2] = ttx::H84;
-            for (int k = 3; k < 22; k++) { p.b[k] = tx::ham84((unsigned)r.below(16)); p.tag[k] = ttx::H84; }
+            Rng rn((uint64_t)plan.knob("net_seed"), "network");
+            for (int k = 3; k < 22; k++) { unsigned v = (unsigned)r.below(16), n = (unsigned)rn.below(16); p.b[k] = tx::ham84(plan.knob("one_network") ? n : v); p.tag[k] = ttx::H84; }
             for (int k = 22; k < 42; k++) { p.b[k] = tx::odd_parity((uint8_t)(0x20 + r.below(0x5F))); p.tag[k] = ttx::PAR; }
-            out.push_back({p, 0, -1, false, 0});
+            Rec rc{p, 0, -1, false, 0}; rc.cycle = cyc; out.push_back(rc);
           }
           sched.yield();
         }
         page_begin(m);
-        hdr(prev_page == 0x98 ? 0x97 : 0x98, 0, 0, true, page_seq++, false);
+        hdr(prev_page == 0x98 ? 0x97 : 0x98, 0, 0, true, page_seq++, false, cycles - 1);
         page_end();
       });
     }
     sched.run(20000000);
     c.state(sched.interleaving_hash());
+    // index of the transmissions (transmitter side knowledge: what was sent when, nothing of the decoder)
+    txs.assign((size_t)page_seq, Tx());
+    for (size_t i = 0; i < out.size(); i++) {
+      const Rec& rc = out[i];
+      if (rc.page_seq < 0 || rc.page_seq >= page_seq) continue;
+      Tx& t = txs[(size_t)rc.page_seq];
+      if (rc.pk.y == 0) { t.hdr = (int)i; t.pgno = rc.pgno; t.sub = rc.sub; t.mag = rc.mag; t.cycle = rc.cycle; t.erase = rc.erase; }
+      else if (rc.pk.y >= 1 && rc.pk.y <= 25) t.rows[rc.pk.y] = (int)i;
+    }
+    // the header which ends a transmission: the next header of its magazine, in serial mode the next header of any
+    // magazine (EN 300 706 9.3.1.3 / B.6)
+    for (auto& t : txs) {
+      if (t.hdr < 0) continue;
+      for (size_t i = (size_t)t.hdr + 1; i < out.size(); i++)
+        if (out[i].pk.y == 0 && out[i].page_seq >= 0 && (serial || out[i].mag == t.mag)) { t.term_hdr = (int)i; t.term_pgno = out[i].pgno; txs[(size_t)out[i].page_seq].prev_pgno = t.pgno; break; }
+    }
   }
 
   // ---- phase 2: decode a packet list and observe
   uint64_t decodes = 0;
-  Obs decode(const std::vector<Rec>& L, int skip, const std::vector<std::pair<int, int>>& flips) {
-    events.clear(); frame.clear(); ts = 5000.0;
+  // skip: index of a packet that is not sent (-1 none); skipset: further packets not sent; repl_k / repl: packet repl_k
+  // is sent with these 42 bytes instead of its own
+  Obs decode(const std::vector<Rec>& L, int skip, const std::vector<std::pair<int, int>>& flips, const std::set<int>* skipset = nullptr, int repl_k = -1, const uint8_t* repl = nullptr) {
+    events.clear(); frame.clear(); ts = 5000.0; net_in_decode = 0;
     open_decoder();
     for (size_t k = 0; k < L.size(); k++) {
       if ((int)k == skip) continue;
-      uint8_t b[42]; memcpy(b, L[k].pk.b, 42);
+      if (skipset && skipset->count((int)k)) continue;
+      uint8_t b[42]; memcpy(b, (int)k == repl_k && repl ? repl : L[k].pk.b, 42);
       for (auto& f : flips) if (f.first == (int)k) b[(f.second / 8) % 42] ^= (uint8_t)(1 << (f.second % 8));
       push(b);
       if (L[k].pk.y == 0) flush();
@@ -938,6 +1020,90 @@ struct C03 : World, TtxWorldBase {
     return true;
   }
 
+  // The content the cache holds for the text row of packet k before the transmission this packet belongs to, as the
+  // TRANSMITTER knows it: index of the packet which carried it, -1 when there is none or it is not certain.
+  // Certain = the row was sent in an earlier transmission of the same page and subpage which was terminated by a header
+  // with another page number (an ordinary, completed transmission; what becomes of a subpage which another subpage of
+  // the same number follows directly is open, see C02), no completed transmission with the erase flag came in between,
+  // and this transmission itself has no erase flag (with C4 the row "stays blank", the older comparison covers that).
+  // Page numbers kept in one version (subcode 0000 or a clock hh:mm): any other subcode in between makes it uncertain.
+  std::map<int, Obs> repeated;   // packet index -> decode with that packet replaced by the earlier row
+  int earlier_row(const std::vector<Rec>& L, int k) const {
+    const Rec& rc = L[(size_t)k];
+    if (rc.page_seq < 0 || (size_t)rc.page_seq >= txs.size()) return -1;
+    const Tx& t = txs[(size_t)rc.page_seq];
+    int y = rc.pk.y;
+    if (t.hdr < 0 || t.erase) return -1;
+    auto one_version = [](int sub) { return sub == 0 || sub >= 0x100; };
+    int state = -1;  // -1 none, -2 unknown, >= 0 packet index
+    for (const Tx& u : txs) {
+      if (u.hdr < 0 || u.hdr >= t.hdr || u.pgno != t.pgno) continue;
+      if (u.sub != t.sub) { if (one_version(u.sub) || one_version(t.sub)) state = -2; continue; }
+      bool certain = u.term_pgno >= 0 && u.term_pgno != u.pgno && u.term_hdr < t.hdr + 1;
+      auto it = u.rows.find(y);
+      if (certain) { if (u.erase) state = -1; if (it != u.rows.end()) state = it->second; }
+      else if (u.erase || it != u.rows.end()) state = -2;
+    }
+    return state >= 0 ? state : -1;
+  }
+
+  // "A packet whose address or control bytes are uncorrectable changes nothing - an uncorrectable header only abandons
+  // the pages in progress."  Header k has an uncorrectable page number, subcode or control byte.  The decoder cannot
+  // know which page the packets behind it belong to: that transmission (header and its packets) must leave no trace,
+  // and of the pages in progress when the header arrived each is either completed as in the fault-free run or
+  // abandoned (the statement allows to abandon them, it does not demand it; which of them - the page of the header's
+  // magazine only, or of every magazine - it does not say either).  References, all decoded by the same decoder:
+  //   w[0] the transmission of header k is not sent at all
+  //   w[1] ... and neither is the transmission in progress in the header's magazine
+  //   w[2] ... and neither are the transmissions in progress in all magazines
+  // Every cached (page, subpage) must look - both levels, links and navigation row - as in one of the references, or
+  // as in the fault-free twin if it is not the (page, subpage) number of header k itself.  The choice is per page:
+  // leaving out a transmission also changes which header terminates the page before it, a side effect of the reference
+  // which the twin covers.  Page events are not compared (clause 4 has checked their numbers).
+  struct HdrAlt { Obs w[3]; };
+  std::map<int, HdrAlt> hdr_alt;
+  bool check_uncorrectable_header(const std::vector<Rec>& L, const Obs& twin, const Obs& o, int k, const char* what, RunCtx& c) {
+    const Rec& rc = L[(size_t)k];
+    if (rc.page_seq < 0 || rc.pk.y != 0) return true;
+    if (network_events) { c.count("network_event_seen_cache_history_clauses_skipped"); return true; }
+    auto it = hdr_alt.find(k);
+    if (it == hdr_alt.end()) {
+      int inprog[8]; for (int& x : inprog) x = -1;
+      for (int i = 0; i < k; i++) if (L[(size_t)i].pk.y == 0 && L[(size_t)i].page_seq >= 0) inprog[L[(size_t)i].mag & 7] = L[(size_t)i].page_seq;
+      std::set<int> s[3];
+      for (size_t i = 0; i < L.size(); i++) {
+        int q = L[i].page_seq;
+        if (q < 0) continue;
+        bool mine = q == rc.page_seq, same_mag = q == inprog[rc.mag & 7], any_mag = false;
+        for (int x : inprog) if (q == x) any_mag = true;
+        if (mine) s[0].insert((int)i);
+        if (mine || same_mag) s[1].insert((int)i);
+        if (mine || any_mag) s[2].insert((int)i);
+      }
+      HdrAlt a;
+      for (int v = 0; v < 3; v++) a.w[v] = decode(L, -1, {}, &s[v]);
+      it = hdr_alt.emplace(k, std::move(a)).first;
+    }
+    const HdrAlt& a = it->second;
+    if (rc.pgno == (txs.empty() || rc.page_seq >= (int)txs.size() ? -1 : txs[(size_t)rc.page_seq].prev_pgno)) c.count("fault_double_header_behind_same_page_number");
+    auto view = [](const Obs& x, int key, uint64_t out[2]) -> bool {
+      auto p = x.page_hash.find(key); if (p == x.page_hash.end()) return false;
+      out[0] = p->second; auto n = x.nav_hash.find(key); out[1] = n == x.nav_hash.end() ? 0 : n->second; return true;
+    };
+    auto same = [&](const Obs& x, int key) { uint64_t a1[2] = {0, 0}, a2[2] = {0, 0}; bool h1 = view(o, key, a1), h2 = view(x, key, a2); return h1 == h2 && (!h1 || (a1[0] == a2[0] && a1[1] == a2[1])); };
+    std::set<int> keys;
+    for (const Obs* x : {&o, &twin, &a.w[0], &a.w[1], &a.w[2]}) for (auto& kv : x->page_hash) keys.insert(kv.first);
+    int own = pkey(rc.pgno, rc.sub);
+    for (int key : keys) {
+      bool ok = same(a.w[0], key) || same(a.w[1], key) || same(a.w[2], key) || (key != own && same(twin, key));
+      if (ok) continue;
+      c.fail("oracle:c03-double-header", "%s: header of %x.%x with an uncorrectable page number / subcode / control byte: page %x.%x is %s but looks neither as without that transmission nor as with the pages in progress abandoned%s",
+             what, rc.pgno, rc.sub, key >> 16, key & 0xFFFF, o.page_hash.count(key) ? "cached" : "not cached", key == own ? "" : " nor as in the fault-free transmission");
+      return false;
+    }
+    return true;
+  }
+
   // checks one fault (list of flips in packet k, or drop) against the twins
   bool check_fault(const std::vector<Rec>& L, const Obs& twin, std::map<int, Obs>& without, int k, const std::vector<int>& bits, bool drop, RunCtx& c) {
     std::vector<std::pair<int, int>> flips;
@@ -980,7 +1146,8 @@ struct C03 : World, TtxWorldBase {
     }
     if (other) { c.count("fault_other_unclassified"); return true; }  // mixtures: clause 4 only
     if (any_double_addr && !par_hit) {
-      if (!addr_byte_hit_double) { c.count("fault_double_header_ctrl"); return true; }  // header page/subcode/control byte: abandons pages in progress; clause 4 only
+      // header page number / subcode / control byte: "an uncorrectable header only abandons the pages in progress"
+      if (!addr_byte_hit_double) { c.count("fault_double_header_ctrl"); return check_uncorrectable_header(L, twin, o, k, what, c); }
       c.count("fault_double_address");
       if (!without.count(k)) without[k] = decode(L, k, {});
       std::string d = diff(o, without[k]);
@@ -1007,6 +1174,20 @@ struct C03 : World, TtxWorldBase {
         if (!without.count(k)) without[k] = decode(L, k, {});
         std::string d = diff(o, without[k], false);
         if (!d.empty()) { c.fail("oracle:c03-parity-row", "%s: a row received with a parity error is not ignored as a whole (must keep earlier content or stay blank): %s", what, d.c_str()); return false; }
+        // "never replaces a previously received good row ...: the row keeps its earlier content".  The comparison above
+        // trusts the decoder to keep a row which is not retransmitted; this one does not: when the transmitter knows what
+        // the cache holds for this row (earlier_row()), the result must be the one of the transmission in which the
+        // transmitter itself repeats that earlier row in place of the damaged one - every page at both levels, and the
+        // navigation row / links with navigation enabled (a row 24 which keeps its content is not replaced by a
+        // generated navigation bar either).
+        int e = network_events ? -1 : earlier_row(L, k);
+        if (e >= 0) {
+          c.count("fault_parity_row_earlier_content_known");
+          if (pk.y == 24) c.count("fault_parity_row24_earlier_content_known");
+          if (!repeated.count(k)) repeated[k] = decode(L, -1, {}, nullptr, k, L[(size_t)e].pk.b);
+          std::string d2 = diff(o, repeated[k], true);
+          if (!d2.empty()) { c.fail("oracle:c03-parity-row-earlier", "%s: a row received with a parity error does not keep the content received before (packet %d, an undisturbed earlier transmission of page %x.%x): %s", what, e, L[(size_t)k].pgno, L[(size_t)k].sub, d2.c_str()); return false; }
+        }
         return true;
       }
       if (pk.y == 0) {
@@ -1037,11 +1218,21 @@ struct C03 : World, TtxWorldBase {
     static bool warmed = false;
     if (!warmed) { warmed = true; vbi_decoder* d = vbi_decoder_new(); vbi_decoder_delete(d); }
     alloc_track_reset();
-    ctx = &c; g = this; transmitted.clear(); x26_override.clear(); x26_addressed.clear(); decodes = 0;
+    ctx = &c; g = this; transmitted.clear(); x26_override.clear(); x26_addressed.clear(); decodes = 0; txs.clear(); repeated.clear(); hdr_alt.clear(); network_events = 0;
     frame_max = (int)(plan.knob("frame_max", 4) % 17); if (frame_max < 1) frame_max = 1;
     std::vector<Rec> L;
     record(plan, c, L);
     for (size_t k = 0; k < L.size(); k++) c.log("tx %zu mag %d Y %d", k, L[k].pk.mag, L[k].pk.y);
+    { int re = 0, b2b = 0;
+      for (const Tx& t : txs) {
+        if (t.hdr < 0) continue;
+        bool before = false;
+        for (const Tx& u : txs) if (u.hdr >= 0 && u.hdr < t.hdr && u.pgno == t.pgno && u.sub == t.sub) before = true;
+        if (before && !t.erase) re++;
+        if (t.prev_pgno == t.pgno) b2b++;
+      }
+      c.count("tx_retransmissions_without_erase", re); c.count("tx_headers_behind_same_page_number", b2b);
+      if (plan.knob("cycles", 1) > 1) c.count("tx_multi_cycle"); }
     Obs twin = decode(L, -1, {});
     for (auto& e : twin.events) c.log("twin event %x.%x", e.first, e.second);
     std::map<int, Obs> without;
@@ -1082,26 +1273,74 @@ struct C03 : World, TtxWorldBase {
       }
       for (const Op* f : faults) {
         if (c.failed) break;
-        int kind = (int)(llabs(f->arg(0)) % 8);
-        int k = (int)(llabs(f->arg(1)) % (int64_t)L.size());
+        int kind = (int)(llabs(f->arg(0)) % 10);
+        // a[5] bit0: draw the packet from the later cycles (retransmissions) when there are any; absent = any packet
+        bool later = f->arg(5) & 1;
+        auto eligible = [&](int i) { return !later || L[(size_t)i].cycle > 0; };
+        auto pick = [&](std::vector<int>& cand, const std::vector<int>& all) -> int {   // cand: eligible ones; all: fallback
+          const std::vector<int>& v = cand.empty() ? all : cand;
+          return v.empty() ? -1 : v[(size_t)(llabs(f->arg(1)) % (int64_t)v.size())];
+        };
+        // stratified by packet type: a[6] selects the type, then a packet of it (the next type present if there is none)
+        auto by_type = [&]() -> int {
+          auto ptype = [&](const Rec& rc) { int y = rc.pk.y; return rc.page_seq < 0 ? 6 : y == 0 ? 0 : y <= 23 ? 1 : y == 24 ? 2 : y == 26 ? 3 : y == 27 ? 4 : y == 28 ? 5 : 6; };
+          std::vector<int> cand[7], all[7];
+          for (int i = 0; i < (int)L.size(); i++) { int t = ptype(L[(size_t)i]); all[t].push_back(i); if (eligible(i)) cand[t].push_back(i); }
+          int s0 = (int)(llabs(f->arg(6)) % 7), kk = -1;
+          for (int t = 0; t < 7 && kk < 0; t++) kk = pick(cand[(s0 + t) % 7], all[(s0 + t) % 7]);
+          return kk;
+        };
+        int k;
+        { std::vector<int> cand, all; for (int i = 0; i < (int)L.size(); i++) { all.push_back(i); if (eligible(i)) cand.push_back(i); }
+          if (!later) k = (int)(llabs(f->arg(1)) % (int64_t)L.size()); else k = pick(cand, all); }
+        if (kind <= 4 && (f->arg(7) & 1)) { int kk = by_type(); if (kk >= 0) { k = kk; c.count("fault_packet_drawn_by_type"); } }
         int b1 = (int)(llabs(f->arg(2)) % 336), b2 = (int)(llabs(f->arg(3)) % 336);
         std::vector<int> bits;
+        if (kind == 8) {
+          int kk = by_type();
+          if (kk >= 0) {
+            k = kk;
+            int byte = (b1 / 8) % 42;
+            for (int n = 0; n < 42 && L[(size_t)k].pk.tag[byte] == ttx::RAW; n++) byte = (byte + 1) % 42;
+            b1 = byte * 8 + b1 % 8;
+            c.count("fault_one_bit_packet_drawn_by_type");
+          }
+          kind = 0;
+        } else if (kind == 9) {
+          // stratified by the history of the header's page (transmitter side knowledge): 0 first transmission of this page and
+          // subpage, 1 sent before and now without erase flag, 2 sent before and now with it, 3 the header directly follows a
+          // transmission with the same page number, 4 the next header in its magazine has the same page number
+          std::vector<int> cand[5], all[5];
+          for (const Tx& t : txs) {
+            if (t.hdr < 0) continue;
+            bool before = false;
+            for (const Tx& u : txs) if (u.hdr >= 0 && u.hdr < t.hdr && u.pgno == t.pgno && u.sub == t.sub) before = true;
+            bool in[5] = {!before, before && !t.erase, before && t.erase, t.prev_pgno == t.pgno, t.term_pgno == t.pgno};
+            for (int x = 0; x < 5; x++) if (in[x]) { all[x].push_back(t.hdr); if (eligible(t.hdr)) cand[x].push_back(t.hdr); }
+          }
+          int s0 = (int)(llabs(f->arg(6)) % 5), kk = -1;
+          for (int t = 0; t < 5 && kk < 0; t++) kk = pick(cand[(s0 + t) % 5], all[(s0 + t) % 5]);
+          if (kk >= 0) { k = kk; b1 = (2 + b1 / 8 % 8) * 8 + b1 % 8; c.count("fault_double_bit_header_drawn_by_history"); }
+          kind = 1;
+        }
         if (kind == 5) {
           // directed: an uncorrectable page number / subcode / control byte of a header (bytes 2-9)
-          std::vector<int> hdrs; for (size_t i = 0; i < L.size(); i++) if (L[i].pk.y == 0) hdrs.push_back((int)i);
+          std::vector<int> hdrs, cand; for (size_t i = 0; i < L.size(); i++) if (L[i].pk.y == 0) { hdrs.push_back((int)i); if (eligible((int)i)) cand.push_back((int)i); }
           if (hdrs.empty()) kind = 1;
-          else { k = hdrs[(size_t)(llabs(f->arg(1)) % (int64_t)hdrs.size())]; b1 = (2 + b1 / 8 % 8) * 8 + b1 % 8; c.count("fault_double_bit_header_number_control"); kind = 1; }
+          else { k = pick(cand, hdrs); b1 = (2 + b1 / 8 % 8) * 8 + b1 % 8; c.count("fault_double_bit_header_number_control"); kind = 1; }
         } else if (kind == 6) {
           // directed: a parity error exactly where an X/26 column triplet points
-          if (x26_addressed.empty()) kind = 0;
-          else { auto& a = x26_addressed[(size_t)(llabs(f->arg(1)) % (int64_t)x26_addressed.size())]; k = a.first; b1 = a.second * 8 + b1 % 8; c.count("fault_one_bit_at_x26_addressed_position"); kind = 0; }
+          std::vector<int> all, cand; for (int i = 0; i < (int)x26_addressed.size(); i++) { all.push_back(i); if (eligible(x26_addressed[(size_t)i].first)) cand.push_back(i); }
+          if (all.empty()) kind = 0;
+          else { auto& a = x26_addressed[(size_t)pick(cand, all)]; k = a.first; b1 = a.second * 8 + b1 % 8; c.count("fault_one_bit_at_x26_addressed_position"); kind = 0; }
         }
         if (kind == 7) {
           // directed: an uncorrectable designation code of an X/26-29 packet or link control byte of an X/27 packet
           std::vector<std::pair<int, int>> ctl;
           for (size_t i = 0; i < L.size(); i++) if (L[i].pk.y >= 26 && L[i].pk.y <= 29) { ctl.push_back({(int)i, 2}); if (L[i].pk.y == 27) { ctl.push_back({(int)i, 39}); ctl.push_back({(int)i, 39}); } }
+          std::vector<int> all, cand; for (int i = 0; i < (int)ctl.size(); i++) { all.push_back(i); if (eligible(ctl[(size_t)i].first)) cand.push_back(i); }
           if (ctl.empty()) kind = 1;
-          else { auto& a = ctl[(size_t)(llabs(f->arg(1)) % (int64_t)ctl.size())]; k = a.first; b1 = a.second * 8 + b1 % 8; c.count("fault_double_bit_designation_linkcontrol"); kind = 1; }
+          else { auto& a = ctl[(size_t)pick(cand, all)]; k = a.first; b1 = a.second * 8 + b1 % 8; c.count("fault_double_bit_designation_linkcontrol"); kind = 1; }
         }
         switch (kind) {
           case 0: bits = {b1}; break;
